@@ -146,6 +146,9 @@ where
             }
         }
 
+        // `update` moves the tip forward with every block, `height` is already the height of the last one.
+        tx_index.tip = height;
+
         tx_index
     }
 
@@ -178,11 +181,11 @@ where
             .collect();
 
         self.tx_in_block.insert(block_header.block_hash(), ks);
+        self.tip += 1;
 
         if self.is_full() {
             // Avoid logging during bootstrap
             log::debug!("New block added to index: {}", block_header.block_hash());
-            self.tip += 1;
             self.remove_oldest_block();
         }
     }
@@ -194,6 +197,8 @@ where
 
             // Blocks should be disconnected from last backwards. Log if that's not the case so we can revisit this and fix it.
             if let Some(ref h) = self.blocks.pop_back() {
+                // The tip is now the parent of the disconnected block
+                self.tip -= 1;
                 if h != block_hash {
                     log::error!("Disconnected block does not match the oldest block stored in the TxIndex ({block_hash} != {h})");
                 }
